@@ -59,6 +59,17 @@ CHECKS = {
              "exhaustively (<=4 cycles, stacks <=5 in traces). MPI and snapshot operators not covered.",
         technique="TLA+ operator/stack/cycle-arithmetic specs + TLC; every TLC run executed by a real Operator; TLC trace validation of recorded hook sequences",
     ),
+    "C05": dict(
+        text="ParamCodec.tla transcribes the database writer's decision procedure (Plan: which of the storage strategies a collection of parameter values takes, or "
+             "reject), Encode/Decode for each strategy and the documented normal form NF; TLC checks RoundTrip / UnsetPositions / RefusalStoresNothing / "
+             "ReadNeverFails over all collections of <= 3 (thorough 4) abstract entries from a 67-entry domain. FlagCodec.tla models flag packing with reordered / "
+             "extended flag classes. Every TLC case is concretised and pushed through the real Database._writeParams -> HDF5 -> _readParams path and compared "
+             "with NF as computed by TLC; random collections and flag histories recorded from the real code are validated by TLC.",
+        design="3/C05 and 9",
+        note="Trusted: TLC, the concretisation of abstract entries (two representatives per kind incl. sentinel-adjacent values), h5py in-memory files. "
+             "Interpretations I1-I5 are in the module header. One known finding (numbers mixed with strings are stringified).",
+        technique="TLA+ codec specs (decision procedure + normal form) + TLC; one real HDF5 round trip per TLC case; TLC trace validation of recorded collections",
+    ),
 }
 
 NOT_YET = "no specification-bound check has been built for this property yet in this session (planned, see DESIGN.md section 3)"
